@@ -55,7 +55,7 @@ func (c *EvalCase) run()           { runEval(c) }
 // A per-case watchdog exits the process if a case hangs; a fatal error (stack overflow, out of
 // memory) kills the process: the parent then knows which case was in flight.
 func workerMain() {
-	debug.SetMaxStack(256 << 20)
+	debug.SetMaxStack(64 << 20)
 	in := bufio.NewReaderSize(os.Stdin, 1<<20)
 	out := bufio.NewWriterSize(os.Stdout, 1<<20)
 	timeout := 20 * time.Second
@@ -147,8 +147,14 @@ func runIsolated(lines [][]byte) []isoResult {
 	// A worker that died or hung may have been the victim of the machine rather than of the case
 	// (memory pressure, a stalled scheduler when many checks run at once): every such case is run
 	// again, alone, in a fresh worker, and only a second failure is believed.
+	reruns := 0
 	for i := range results {
 		if results[i].failure == "" {
+			continue
+		}
+		// (a change that makes hundreds of cases crash is established by the first few; each
+		// re-run of a runaway recursion costs seconds)
+		if reruns++; reruns > 12 {
 			continue
 		}
 		again := make([]isoResult, 1)
